@@ -22,7 +22,7 @@ ASSUMPTIONS = [
 CASES = {"quick": 6400, "thorough": 250000}
 MIN_CASES = {"quick": 1500, "thorough": 4000}
 REQUIRED_CLASSES = ["layout", "algorithm"]
-REQUIRED_COUNTERS = ["layouts_judged", "determinism_checked", "fixed_modules_checked", "centres_checked", "algorithm_runs_judged", "trials_recorded", "selection_checked", "algorithm_runs_after_earlier_queries"]
+REQUIRED_COUNTERS = ["layouts_judged", "determinism_checked", "fixed_modules_checked", "centres_checked", "algorithm_runs_judged", "trials_recorded", "selection_checked", "algorithm_runs_after_earlier_queries", "designs_with_movable_modules_that_have_rectangles:algorithm", "designs_with_movable_modules_that_have_rectangles:layout"]
 
 _fr = None
 _trials = []
@@ -98,8 +98,19 @@ def generate(rng, tier, i):
         else:
             c = [float(f"{rng.uniform(0, W):.6g}"), float(f"{rng.uniform(0, H):.6g}")]
         pts.append(c)
-        if rng.random() < 0.2:
+        r2 = rng.random()
+        if r2 < 0.2:
             mods[f"T{k}"] = {"terminal": True, "center": c}
+        elif r2 < 0.35:
+            # a movable module that already has rectangles (hard, or soft with a shape from an earlier stage)
+            w = float(f"{rng.uniform(0.05, 0.3) * W:.4g}")
+            h = float(f"{rng.uniform(0.05, 0.3) * H:.4g}")
+            cx = min(max(c[0], w / 2), W - w / 2)
+            cy = min(max(c[1], h / 2), H - h / 2)
+            rects = [[cx, cy, w, h]]
+            if rng.random() < 0.4 and cy + h / 2 + h / 4 <= H:
+                rects.append([cx - w / 4, cy + h / 2 + h / 8, w / 2, h / 4])       # a branch on the north side
+            mods[f"H{k}"] = {"hard": True, "rectangles": rects} if rng.random() < 0.6 else {"area": sum(r[2] * r[3] for r in rects), "rectangles": rects}
         else:
             a = (rng.uniform(0.02, 0.4) * min(W, H)) ** 2
             mods[f"S{k}"] = {"area": float(f"{a:.5g}"), "center": c}
@@ -162,6 +173,8 @@ def check(case, ctx):
     die, nl = res
     movable = sum(1 for m in nl.modules if not m.is_fixed)
     ctx.nontrivial(movable >= 2 and case["max_iter"] >= 1)
+    if any(not m.is_fixed and not m.is_terminal and m.num_rectangles > 0 and any(m in e.modules for e in nl.edges) for m in nl.modules):
+        ctx.count("designs_with_movable_modules_that_have_rectangles:" + case["cls"])
     before = snapshot(die)
     what = f"case={case}"
     if case["cls"] == "layout":
